@@ -12,7 +12,7 @@ PROPERTY = 'C07'
 LEVEL = 'exploration'
 RULE = ('all connected graphs with <= 6 nodes (NetworkX graph atlas) x every choice of one distinguished edge x order in '
         '{0,2,3,4} (all other edges single) + the all-single assignment + random order assignments, each under random '
-        'relabelings (shuffled integer keys / insertion orders, string keys), random names and the orders stored as int, integral float, numpy int64 or float64; plus random connected graphs '
+        'relabelings (shuffled integer keys / insertion orders, string keys), random names and the orders stored as int, integral float, numpy int64 or float64, a third of the graphs with atomname / fragid attributes next to the name; plus random connected graphs '
         'up to 30 (thorough: 60) nodes with orders 0-4 and >= 10 ring closures; 4 % of the round trips follow a writer call that failed half-way. Oracle: read_cgsmiles(write_cgsmiles_graph(G)) '
         'is isomorphic to G on fragname and order; the written string is also parsed by the independent reference reader to '
         'tell a writer fault from a reader fault. distinct = (graph id or size class, distinguished-edge role, order); '
@@ -134,8 +134,12 @@ def fresh(key):
 
 def build(case):
     g = nx.Graph()
-    for key, name in case['nodes']:
+    for k_, (key, name) in enumerate(case['nodes']):
         g.add_node(key, fragname=name)
+        if case.get('order_type') in ('float', 'np.int64'):
+            # a graph that has been through a resolver carries further node attributes next to the name - an atom name that
+            # differs from it, a fragment id: the name the writer writes is 'fragname'
+            g.nodes[key].update(atomname='B%d' % k_, fragid=[k_])
     ot = case.get('order_type', 'int')
     if ot == 'float':
         cast = float
